@@ -270,12 +270,19 @@ Definition switch_init (args : list node) : sw_state := sw_loop args [] ([], [])
 
 (* ------------------------------------------------------------------ the evaluator *)
 
+(* A magic word / parser function dispatched by MagicResolver.__call__ (magics.py:572-596) receives the
+   ArgumentList and fetches its arguments LAZILY (ArgumentList.__getitem__ -> get(i) -> evaluate.flatten,
+   evaluate.pyx:82-104).  It is modelled as a strategy: either done with an output, or asking for the value of
+   argument i and continuing with that value.  Any behaviour of a (terminating) magic is such a tree. *)
+Inductive mreq := MDone (out : str) | MAsk (i : nat) (k : str -> mreq).
+
 Section Flatten.
   (* Expander.get_parsed_template: name checks + wikidb lookup + parser.parse; any function: cyclic universes allowed *)
   Variable tpl : str -> option node.
-  (* magic words / parser functions (MagicResolver, magic_nodes.registry, colon functions): abstract, total *)
+  (* magic words / parser functions (MagicResolver, magic_nodes.registry, colon functions): abstract strategies over
+     their lazily evaluated arguments; `magic_prog name nargs` *)
   Variable is_magic : str -> bool.
-  Variable magic_fn : str -> list str -> str.
+  Variable magic_prog : str -> nat -> mreq.
   (* aliasmap.get_aliases("default") or ["#default"] *)
   Variable default_names : list str.
 
@@ -285,7 +292,9 @@ Section Flatten.
     match node_as_str val with
     | Some s => Ok (if do_strip then strip s else s)
     | None => match fl val parent with
-              | Ok ps => let t := join_nl ps in Ok (if do_strip then strip t else t)
+              | Ok ps => let t := join_nl ps in
+                         let t' := if do_strip then strip t else t in
+                         if too_long t' then Err XMem else Ok t'          (* evaluate.pyx:151-154 (fix 9fac97a) *)
               | Err x => Err x
               end
     end.
@@ -317,7 +326,7 @@ Section Flatten.
     | EArgs args parent => scan fl args parent 1%N n
     end.
 
-  (* ArgumentList.get(i, None) for an int index (evaluate.pyx:90-104), used by the magics; evaluated eagerly here *)
+  (* ArgumentList.get(i, None) for an int index (evaluate.pyx:90-104), used by the magics (see run_magic) *)
   Definition arg_int (fl : flat) (e : env) (a : node) : res str :=
     match node_as_str a with
     | Some s => Ok (strip s)
@@ -334,6 +343,22 @@ Section Flatten.
                 | Err x => Err x
                 | Ok s => match args_int fl e r with Ok ss => Ok (s :: ss) | Err x => Err x end
                 end
+    end.
+
+  (* the magic's run: every argument fetch goes through arg_int; an exception raised while flattening the argument
+     (TemplateRecursion, MemoryLimitError) is NOT caught by the magic nor by MagicResolver.__call__ (magics.py:593):
+     it passes through the call unchanged.  A missing argument reads as "" (ArgumentList.__getitem__: get(n) or ""). *)
+  Fixpoint run_magic (fl : flat) (e : env) (args : list node) (m : mreq) : res str :=
+    match m with
+    | MDone s => Ok s
+    | MAsk i k =>
+        match nth_error args i with
+        | None => run_magic fl e args (k [])
+        | Some a => match arg_int fl e a with
+                    | Err x => Err x
+                    | Ok s => run_magic fl e args (k s)
+                    end
+        end
     end.
 
   Fixpoint sw_unres (fl : flat) (e : env) (val : str) (nv : option num) (l : list (node * node)) : res (option node) :=
@@ -411,9 +436,9 @@ Section Flatten.
             let name := strip (pjoin ps) in
             if too_long name then Err XMem else
             if is_magic name then
-              match args_int fl e args with
+              match run_magic fl e args (magic_prog name (length args)) with
               | Err x => Err x
-              | Ok ss => Ok [PMaybeNL; PS (magic_fn name ss); PMark]
+              | Ok s => Ok [PMaybeNL; PS s; PMark]
               end
             else
               match tpl name with
